@@ -656,8 +656,8 @@ func (fg *FnGen) goCall(x *ssa.Go) {
 	savedCC := fg.curCC
 	fg.curCC = cc
 	fg.havocAll("go")
-	fg.curCC = savedCC
 	fg.havocAllCounters(x.Pos())
+	fg.curCC = savedCC
 }
 
 func (fg *FnGen) runDefers() {
